@@ -97,8 +97,7 @@ Fixpoint si_run (sched : list (nat * op)) (s : sstate) : sstate :=
 
 Definition in_txn (h : nat) (s : sstate) : Prop := exists tx, nth_error (hs s) h = Some (Some tx).
 Definition si_wf (s : sstate) : Prop :=
-  (forall h tx, nth_error (hs s) h = Some (Some tx) -> start tx <= clock s) /\
-  (forall k, lastw_of k (lastw s) <= clock s).
+  forall h tx, nth_error (hs s) h = Some (Some tx) -> start tx <= clock s.
 
 (* ------------------------------------------------------------------ src/mvcc/version.rs (hand model) *)
 Record rheader := mkRH { h_locked : bool; h_deleted : bool; h_txn : Z }.
